@@ -48,6 +48,11 @@ CLAIMED["C19"] = ("TLA+ Ownership (strong holders = program handles, container, 
 CLAIMED["C17"] = ("TLA+ Locks (every public call as a program of lock steps, poisoning, Linearize property layer) explored by TLC over every scenario x interleaving; the same scenarios executed with real threads on the real RwLocks under a deterministic scheduler on the lock-point hook (all grant sequences, real blocking probed, writer preference simulated); per scenario the real outcome set must equal the model's, every outcome is judged by TLC (Linearizable, panic, poison, deadlock); listed design defects reported as KNOWN-FINDING by scenario class",
   "All scenarios of 2 threads x 1 call over 2 nodes and initial graphs with <=2 edges (thorough: 2x2 calls, 3 nodes, 3 threads), every interleaving of lock acquisitions: ~12 000 scenarios / ~560 000 real executions per quick run. 24 scenario classes are genuine, unrepaired design-level defects (known_findings.json); any other failing class is a VIOLATION.", "§4 C17")
 
+CLAIMED["C14"] = ("TLA+ Macros (invocation ASTs, Denote = the insert/connect fold or a panic naming the unlisted key, MacroOK property layer) enumerated and checked (FoldOK) by TLC; every AST x 4 forms x 4 macros rendered as Rust source, compiled against the working tree and run; observed graph / panic compared with the emitted denotation, disagreements judged by TLC",
+  "All invocations with <=2 node entries (thorough <=3) over keys {1,2} with targets in {1,2,3} (3 = unlisted), absent / empty / non-empty edge lists, self-loops, repeats, forward references x 4 forms x 4 macros (~2 700 generated programs per quick run) plus the *_node!/*_connect! helpers.", "§4 C14")
+CLAIMED["C16"] = ("TLA+ SendSync (auto-trait derivation as a greatest fixed point over the recursive node types, explicit unsafe impls as data, property layer Allowed / NoRace) checked by TLC for all 64 capability assignments; the compiler's actual Send/Sync table for 4 flavours x {Node, Edge, Graph} x 64 witness payload combinations (generated probe crate) judged row by row by TLC; generic positive obligations must type-check",
+  "Exhaustive over the capability lattice {Send+Sync, Send only, Sync only, neither}^3; by parametricity this decides 'only if' for all payload types.", "§4 C16")
+
 NOT_YET = {}
 props = [json.loads(l) for l in open(os.path.join(V, "properties.jsonl"))]
 checks = []
@@ -70,7 +75,7 @@ na = [{"property_id": p["id"], "reason": NOT_YET.get(p["id"], "check not built y
       for p in props if p["id"] not in CLAIMED]
 m = {
  "version": 1,
- "setup_cmd": "cd /verif/harness && CARGO_NET_OFFLINE=true cargo build --release --offline",
+ "setup_cmd": "cd /verif/harness && CARGO_NET_OFFLINE=true cargo build --release --offline && cd /verif/probe/sendsync && CARGO_NET_OFFLINE=true cargo build --offline",
  "hooks": {
    "guard": "gdsl_verif",
    "enable": "RUSTFLAGS='--cfg gdsl_verif' (set in /verif/harness/.cargo/config.toml; the harness is a path-dependency build of /repo)",
